@@ -13,11 +13,13 @@ from mc import core
 def grid():
     """(angle, wrap) pairs; every value is a dyadic rational so float arithmetic is exact."""
     wraps = [180, -180, 360, -360, 1, -1, 90, 0.5, -0.5, 0.25, 45.5, 0]
+    if core.TIER == "thorough":
+        wraps += [2, -2, 3, -3, 7, -7, 12.5, -12.5, 100, -100, 0.125, -0.125, 1024, -1024, 6.25, -6.25, 57.5, -57.5]
     out = []
     for w in wraps:
         unit = abs(w) if w else 1
-        steps = range(-24, 25) if core.TIER == "quick" else range(-96, 97)
-        div = 8 if core.TIER == "quick" else 32
+        steps = range(-24, 25) if core.TIER == "quick" else range(-1024, 1025)
+        div = 8 if core.TIER == "quick" else 128
         for k in steps:
             a = k * unit / div          # exact: dyadic
             out.append((a, w))
@@ -113,8 +115,8 @@ def run():
     from ioflo.aid import navigating as nav
     if nav.Wrap2 is not nav.wrap2 or nav.Delta is not nav.delta:
         ck.part.violation("alias", "Wrap2/Delta", "Wrap2/Delta no longer alias wrap2/delta")
-    return ck.finish(rule="angles k*|wrap|/%d for k in a symmetric range (at least +-3 turns) for 12 wraps of both signs incl. 0, as int, float and mixed; "
-                          "distinct = (angle, wrap, type); delta with 4 actuals each" % (8 if core.TIER == "quick" else 32),
+    return ck.finish(rule="angles k*|wrap|/%d for k in a symmetric range (at least +-3 turns) for 12 (quick) / 30 (thorough) wraps of both signs incl. 0, as int, float and mixed; "
+                          "distinct = (angle, wrap, type); delta with 4 actuals each" % (8 if core.TIER == "quick" else 128),
                      exhaustive=True)
 
 
